@@ -359,6 +359,15 @@ func isPrefix(a, b []string) bool {
 
 // FrameOK checks the frame condition: before and after agree everywhere outside the touched subtrees.
 func FrameOK(before, after map[string]string, touched [][]string) (bool, string) {
+	return frameOK(before, after, touched, true)
+}
+
+// FrameStrict is FrameOK without the allowance for newly created ancestors of a touched path.
+func FrameStrict(before, after map[string]string, touched [][]string) (bool, string) {
+	return frameOK(before, after, touched, false)
+}
+
+func frameOK(before, after map[string]string, touched [][]string, parentsMayAppear bool) (bool, string) {
 	inTouched := func(path string) bool {
 		for _, t := range touched {
 			tp := strings.Join(t, "/")
@@ -366,7 +375,7 @@ func FrameOK(before, after map[string]string, touched [][]string) (bool, string)
 				return true
 			}
 			// parents of a touched path may be created
-			if strings.HasPrefix(tp, path+"/") {
+			if parentsMayAppear && strings.HasPrefix(tp, path+"/") {
 				return true
 			}
 		}
